@@ -42,7 +42,14 @@ type conn struct {
 
 // New starts a broker on a loopback port.
 func New() *Broker {
-	l, err := net.Listen("tcp", "127.0.0.1:0")
+	var l net.Listener
+	var err error
+	for i := 0; i < 50; i++ {
+		if l, err = net.Listen("tcp", "127.0.0.1:0"); err == nil {
+			break
+		}
+		time.Sleep(100 * time.Millisecond)
+	}
 	if err != nil {
 		panic(err)
 	}
@@ -74,6 +81,15 @@ func (b *Broker) Close() {
 	for c := range b.conns {
 		c.c.Close()
 	}
+	b.mu.Unlock()
+}
+
+// Reset clears the publish log, delay function and hold.
+func (b *Broker) Reset() {
+	b.Release()
+	b.mu.Lock()
+	b.pubs = nil
+	b.delay = nil
 	b.mu.Unlock()
 }
 
